@@ -150,7 +150,7 @@ def shard_setup(ctx):
         return r
     ts.TdmsSegment.read_segment_objects = watched
     ctx.reach = None
-    if ctx.shard == 0:
+    if True:
         ctx.reach = Reach({
             'update_existing_object': ts.TdmsSegment._update_existing_object,
             'reuse_previous_object': ts.TdmsSegment._reuse_previous_object,
